@@ -98,6 +98,8 @@ LOCAL = {
     'FooRec': ('Rec', 'record'), 'FooOpq': ('Opq', 'record'), 'FooUni': ('Uni', 'union'),
     'FooEn': ('En', 'enum'), 'FooFl': ('Fl', 'flags'), 'FooCb': ('Cb', 'callback'),
     'FooInt': ('Int', 'alias-int'), 'FooStr': ('Str', 'alias-str'),
+    # typedef aliases of the local record / union: typedef FooRec FooRecAlias; typedef FooUni FooUniAlias;
+    'FooRecAlias': ('RecAlias', 'alias-record'), 'FooUniAlias': ('UniAlias', 'alias-union'),
     # local typedefs OF const-qualified pointer types: typedef const char *FooName; etc.
     'FooName': ('Name', 'alias-constptr'), 'FooGName': ('GName', 'alias-constptr'),
     'FooConstRec': ('ConstRec', 'alias-constptr'), 'FooBytes': ('Bytes', 'alias-constptr'),
@@ -270,6 +272,22 @@ def nullable_expect(sp, position):
     # the documentation lists the automatically nullable things exhaustively
     # ("Conventionally, the following are automatically nullable")
     return ABSENT
+
+
+def bare_out_caller_allocates(sp):
+    """doc (giannotations.rst, out-parameter examples): "the (out) annotation automatically infers
+    [caller-allocates] from the fact that there's only a single indirection on a structure
+    parameter"; a double indirection is callee-allocated.  A union is an aggregate the caller
+    provides storage for in exactly the same way, and a typedef alias of either is the same type
+    (calibrated on the unchanged tree).  Opaque records and every other kind: UNSPECIFIED.
+    -> '1' | '0' | None"""
+    name, kind = base_info(sp.base)
+    if kind in ('record', 'union', 'alias-record', 'alias-union') and sp.base in LOCAL and sp.base != 'FooOpq':
+        if sp.depth == 1:
+            return '1'
+        if sp.depth == 2:
+            return '0'
+    return None
 
 
 def transfer_param(direction, caller_allocates):
